@@ -74,7 +74,7 @@ Inductive op :=
 
 Inductive res :=
 | RAlloc (pages : list nat) | RFree | RPush (destroyed : bool) | RNew (p : nat) | RPop (p : nat)
-| RTry (p : option nat) | RSkip.
+| RTry (p : option nat) | RSPush | RSkip.
 
 (* role r : true = this thread holds PUSH tickets (deallocate / push), false = POP tickets (allocate / pop);
    the compensation of role r acts in the opposite role on one ticket *)
@@ -216,7 +216,8 @@ Definition step_thread (s : st) (t : nat) (th : thread) : option st :=
     | Some OSPush =>
       match held th with
       | [] => Some (upd s t (finish th [] RSkip))
-      | p :: h => Some (upd (with_ctr s true (S (npush s))) t (with_bufs th (SWait true (npush s)) h [p]))
+      | p :: h =>                                                              (* recycler, then fetch_add(1) *)
+        Some (upd (with_ctr (with_recycled s p) true (S (npush s))) t (with_bufs th (SWait true (npush s)) h [p]))
       end
     | Some OTryPop => Some (upd s t (goto th (YVer (npop s))))               (* index load *)
     end
@@ -272,7 +273,7 @@ Definition step_thread (s : st) (t : nat) (th : thread) : option st :=
     if r then
       if push_ready (qcap s) (tape s) i then
         match buf th with
-        | p :: _ => Some (upd (put s i p) t (finish th (held th) RFree))
+        | p :: _ => Some (upd (put s i p) t (finish th (held th) RSPush))
         | [] => Some (upd s t (finish th (held th) RSkip))
         end
       else None
